@@ -78,8 +78,10 @@ def run_property(prop, tier, seed, jobs=None, only=None, verbose=False):
             # obligations of the variants that did run are still judged
         functions.update(r["functions"])
         for o in r["obls"]:
-            if prop in o["props"] or any(q in o["props"] and pred(o["name"]) and (not same_family or prop in r["props"])
-                                         for q, pred, same_family, _sp in IMPORTS.get(prop, [])):
+            # an unexpected exception / a non-number result invalidates every property the family serves
+            escapes = prop in r["props"] and _re.search(r"/(no-other-exception|no-exception|returns-number|returns-expression)@", o["name"]) is not None
+            if prop in o["props"] or escapes or any(q in o["props"] and pred(o["name"]) and (not same_family or prop in r["props"])
+                                                    for q, pred, same_family, _sp in IMPORTS.get(prop, [])):
                 o["family"] = r["family"]
                 obls.append(o)
                 solver_s += (o["ms"] or 0) / 1000.0
